@@ -1,0 +1,43 @@
+//go:build verif
+
+package vaxis
+
+import "git.sr.ht/~rockorager/vaxis/ansi"
+
+// Hooks for the verification harness of property C09 (/verif/harness/c09).
+// Add-only, guarded by the build tag "verif": re-exports and read-only
+// snapshots, no logic.
+
+// VerifDecodeKey re-exports decodeKey
+func VerifDecodeKey(seq ansi.Sequence) Key { return decodeKey(seq) }
+
+// VerifKeyName is a copy of one entry of keyNames
+type VerifKeyName struct {
+	Key  rune
+	Name string
+}
+
+// VerifKeyNames returns a copy of the keyNames table, in order
+func VerifKeyNames() []VerifKeyName {
+	out := make([]VerifKeyName, len(keyNames))
+	for i, kn := range keyNames {
+		out[i] = VerifKeyName{kn.key, kn.name}
+	}
+	return out
+}
+
+// VerifSpecialKey is a copy of one entry of specialsKeys
+type VerifSpecialKey struct {
+	Code  rune
+	Final rune
+	Key   rune
+}
+
+// VerifSpecialsKeys returns a copy of the specialsKeys table (map order)
+func VerifSpecialsKeys() []VerifSpecialKey {
+	out := make([]VerifSpecialKey, 0, len(specialsKeys))
+	for sk, k := range specialsKeys {
+		out = append(out, VerifSpecialKey{sk.keycode, sk.final, k})
+	}
+	return out
+}
